@@ -122,7 +122,7 @@ class Run:
             if k.get("status") != "known":
                 continue
             m = k.get("matcher", {})
-            if all(tags.get(a) == b for a, b in m.items()) and m:
+            if m and all((tags.get(a) in b) if isinstance(b, list) else (tags.get(a) == b) for a, b in m.items()):
                 hit = self.known_hits.setdefault(k["key"], {"what": k["what_fails"], "n": 0})
                 hit["n"] += 1
                 return False
